@@ -449,11 +449,11 @@ fn pick_k(r: &mut Rng) -> (usize, usize) {
 
 pub fn gen_hist<W: Write>(prop: &str, r: &mut Rng, thorough: bool, out: &mut W) {
     let rounds = match (prop, thorough) {
-        ("C06", false) => 250,
+        ("C06", false) => 1200,
         ("C06", true) => 6000,
-        ("C10", false) => 200,
+        ("C10", false) => 1000,
         ("C10", true) => 5000,
-        (_, false) => 200,
+        (_, false) => 1000,
         (_, true) => 5000,
     };
     for round in 0..rounds {
@@ -957,7 +957,55 @@ fn gen_c02<W: Write>(r: &mut Rng, thorough: bool, out: &mut W) {
 
 // ------------------------------------------------------------------ C12: read sets
 
+/// inverse of `KmerFilter::cheap_mix`: `(key ^ (key >> 31)) * C`
+fn unmix(m: u64) -> u64 {
+    // inverse of the odd constant modulo 2^64 by Newton iteration
+    let c: u64 = 0x85D0_59AA_3331_21CF;
+    let mut inv: u64 = c;
+    for _ in 0..6 {
+        inv = inv.wrapping_mul(2u64.wrapping_sub(c.wrapping_mul(inv)));
+    }
+    let x = m.wrapping_mul(inv);
+    x ^ (x >> 31) ^ (x >> 62)
+}
+
+/// raw hash values that fall into the same 64-bit word of the Bloom filter: the only way to see
+/// fingerprints overlap with few keys (3.1 million words)
+fn gen_bloom<W: Write>(r: &mut Rng, thorough: bool, out: &mut W) {
+    const WORDS: u128 = 3145728;
+    let rounds = if thorough { 3000 } else { 150 };
+    for _ in 0..rounds {
+        let mut keys: Vec<u64> = Vec::new();
+        for _ in 0..(1 + r.below(3)) {
+            let loc = r.below(WORDS as usize) as u128;
+            // mixed values m with (m * WORDS) >> 64 == loc
+            let lo = ((loc << 64) + WORDS - 1) / WORDS;
+            let hi = (((loc + 1) << 64) + WORDS - 1) / WORDS;
+            for _ in 0..(2 + r.below(14)) {
+                let m = lo + (r.next() as u128) % (hi - lo);
+                keys.push(unmix(m as u64));
+            }
+        }
+        for _ in 0..r.below(4) {
+            keys.push(r.next());
+        }
+        // repeats: a key seen before must be reported as seen
+        let n = keys.len();
+        for _ in 0..r.below(n + 1) {
+            let k = keys[r.below(n)];
+            keys.push(k);
+        }
+        for i in (1..keys.len()).rev() {
+            let j = r.below(i + 1);
+            keys.swap(i, j);
+        }
+        let ks: Vec<String> = keys.iter().map(|k| k.to_string()).collect();
+        writeln!(out, "bloom keys={}", ks.join(",")).unwrap();
+    }
+}
+
 fn gen_c12<W: Write>(r: &mut Rng, thorough: bool, out: &mut W) {
+    gen_bloom(r, thorough, out);
     let rounds = if thorough { 20000 } else { 400 };
     for _ in 0..rounds {
         let k = *r.pick(&[5usize, 7, 9, 15, 21, 31, 33, 63]);
@@ -1029,7 +1077,7 @@ fn gen_c12<W: Write>(r: &mut Rng, thorough: bool, out: &mut W) {
 // ------------------------------------------------------------------ C03: sample families through build + align
 
 fn gen_c03<W: Write>(r: &mut Rng, thorough: bool, out: &mut W) {
-    let rounds = if thorough { 8000 } else { 250 };
+    let rounds = if thorough { 8000 } else { 1000 };
     for _ in 0..rounds {
         let k = *r.pick(&[5usize, 7, 9, 11, 15, 21, 31, 33, 41, 63]);
         let w = if k <= 31 && r.chance(4, 5) { 64 } else { 128 };
